@@ -13,10 +13,10 @@ open Sqfs.Consts
 /-- is the fragment taken for a hole (`IS_SPARSE` set by `process_block`)? -/
 def isSparse (d : Bytes) (flags : Nat) : Bool := !hasFlag flags blkIgnoreSparse && allZero d
 
-/-- The inputs C08 speaks about: no all-zero tail end marked `nosparse`.  (Such a fragment can end up in a
-fragment block that is entirely zero, which `process_block` takes for a hole and never writes — defect D24,
-owned by C17.) -/
-def fragOk (d : Bytes) (flags : Nat) : Prop := hasFlag flags blkIgnoreSparse = true → allZero d = false
+/-- The only requirement on a fragment: it is not empty (`frontend.c` only ever submits a tail end of
+`size % block_size > 0` bytes; an empty one would make `chunk_info_equals` itself report `SQFS_ERROR_CORRUPTED`).
+All-zero tail ends marked `nosparse` are covered since /repo 47f7b3d (a fragment block is never sparse). -/
+def fragOk (d : Bytes) (_flags : Nat) : Prop := d ≠ []
 
 def Ev.ok : Ev → Prop
   | .frag d fl => fragOk d fl
@@ -38,10 +38,11 @@ def fragSoundOk (codec : Codec) (st : State) : List Ev → List (Option Res) →
   | .finish :: es, none :: rs => fragSoundOk codec st es rs
   | _, _ => false
 
-/-- the fragments stored so far with the checksum they were stored under -/
-def seenOf (h : Bytes → UInt32) : List Ev → List (Bytes × UInt32)
+/-- the fragments stored so far with the rest of their lookup key: the checksum they were stored under and their
+`DONT_COMPRESS` flag -/
+def seenOf (h : Bytes → UInt32) : List Ev → List (Bytes × UInt32 × Nat)
   | [] => []
-  | .frag d fl :: es => seenOf h es ++ (if isSparse d fl then [] else [(d, fragHash h d fl)])
+  | .frag d fl :: es => seenOf h es ++ (if isSparse d fl then [] else [(d, fragHash h d fl, fl &&& blkDontCompress)])
   | _ :: es => seenOf h es
 
 end Sqfs.FragDedup
